@@ -128,8 +128,8 @@ let run (op_full : string) (a : string array) : string =
   | "parse_key_paths" ->
       show_res (fun ks -> show_keypaths ks ^ " " ^ hex (show_key_paths ks)) (parse_key_paths (unhex a.(0)))
   | "print_key_paths" -> "ok " ^ hex (show_key_paths (parse_keypaths a.(0)))
-  | "to_serde_json" -> show_res show_sj (to_serde_json_m (unhex a.(0)))
-  | "to_serde_json_object" -> show_res (show_opt show_sj) (to_serde_json_object_m (unhex a.(0)))
+  | "to_serde_json" -> show_res show_sj (to_serde_json_w (unhex a.(0)))
+  | "to_serde_json_object" -> show_res (show_opt show_sj) (to_serde_json_object_w (unhex a.(0)))
   | "value_to_serde" -> show_res show_sj (value_to_serde (parse_val a.(0)))
   | "serde_to_value" -> "ok " ^ show_val (serde_to_value (parse_sj a.(0)))
   | "serde_roundtrip" ->
